@@ -243,4 +243,14 @@ def ref_ih_coherent(h):
     return rows == tree
 
 
-REFS = dict(ref_ih_coherent=ref_ih_coherent, ref_series_assign=ref_series_assign, ref_has_missing=ref_has_missing, ref_index_equals=ref_index_equals, ref_series_equals=ref_series_equals, ref_set_fold=ref_set_fold, labels_of_array=labels_of_array, ref_map_slice_args=ref_map_slice_args, ref_windows=ref_windows, observed_windows=observed_windows, windows_agree=windows_agree, ref_tb_equals=ref_tb_equals, ref_slices_from_targets=ref_slices_from_targets)
+def ref_ih_view(h, result, depth=None):
+    """an array view of an IndexHierarchy lists the label tuples of its tree (depth: one level; None: the 2-D table)"""
+    h = getattr(h, 'obj', h)
+    tree = [tuple(x.item() if hasattr(x, 'item') else x for x in t) for t in h._levels]
+    got = getattr(result, 'a', result)
+    if depth is None:
+        return [tuple(r) for r in got.tolist()] == tree
+    return list(got.tolist()) == [t[depth] for t in tree]
+
+
+REFS = dict(ref_ih_view=ref_ih_view, ref_ih_coherent=ref_ih_coherent, ref_series_assign=ref_series_assign, ref_has_missing=ref_has_missing, ref_index_equals=ref_index_equals, ref_series_equals=ref_series_equals, ref_set_fold=ref_set_fold, labels_of_array=labels_of_array, ref_map_slice_args=ref_map_slice_args, ref_windows=ref_windows, observed_windows=observed_windows, windows_agree=windows_agree, ref_tb_equals=ref_tb_equals, ref_slices_from_targets=ref_slices_from_targets)
